@@ -265,6 +265,18 @@ class Ctx:
                     out.append(SReal(a))
         return out
 
+    def atoms(self, value, fname):
+        """Every application of the opaque function `fname` inside a symbolic value, as values (for lemmas such
+        as "this square root is the radius").  Empty in concrete mode."""
+        if self.mode != "symbolic":
+            return []
+        roots = [sym.lift(v) for v in np.asarray(value, dtype=object).flat] if not isinstance(value, SReal) else [value.t]
+        out = []
+        for t in tm.subterms(roots):
+            if ((t.op == "fn" and t.args[0] == fname) or (t.op == fname)) and all(t is not b.t for b in out):
+                out.append(SReal(t))
+        return out
+
     def decisions(self):
         """Left-hand sides X of the comparisons (X < c, X <= c, ...) decided on this path so far."""
         if self.mode != "symbolic":
